@@ -112,14 +112,14 @@ type built struct {
 // build loads the configuration through the real loader: JSON text ->
 // router.Config -> Config.Router.
 func (w *worker) build(c *cfgSpec, resolvers int) built {
-	return w.buildJSON(c.configJSON(w.dir), resolvers, c.Clients)
+	return w.buildJSON(c.configJSON(w.dir), resolvers, c.nTCP(), c.nUDP())
 }
 
 func (w *worker) buildRaw(cfgJSON []byte, resolvers int) built {
-	return w.buildJSON(cfgJSON, resolvers, 2)
+	return w.buildJSON(cfgJSON, resolvers, 2, 2)
 }
 
-func (w *worker) buildJSON(cfgJSON []byte, resolvers, clients int) (b built) {
+func (w *worker) buildJSON(cfgJSON []byte, resolvers, clients, udpClients int) (b built) {
 	b.cfgJSON = cfgJSON
 	var rc router.Config
 	if err := json.Unmarshal(b.cfgJSON, &rc); err != nil {
@@ -130,6 +130,8 @@ func (w *worker) buildJSON(cfgJSON []byte, resolvers, clients int) (b built) {
 	um := map[string]zerocopy.UDPClient{}
 	for i := 0; i < clients; i++ {
 		tm[fmt.Sprintf("c%d", i)] = w.tcp[i]
+	}
+	for i := 0; i < udpClients; i++ {
 		um[fmt.Sprintf("c%d", i)] = w.udp[i]
 	}
 	var rl []dns.SimpleResolver
